@@ -131,6 +131,8 @@ def match_known(known, prop, viol, ev):
             core = [r for r in viol["rules"] if not re.search(r":after-|rejected-in-a-scenario", r)]
             if not core or not all(any(a in r for a in sig["rules"]) for r in core):
                 continue
+        if "name" in sig and (not isinstance(ev, dict) or ev.get("name") != sig["name"]):
+            continue
         if "wedge" in sig and (not isinstance(ev, dict) or ev.get("wedge") != sig["wedge"]):
             continue
         if "driver_prefix" in sig and not viol.get("driver", "").startswith(sig["driver_prefix"]):
